@@ -52,6 +52,9 @@ func genConfig(t *rapid.T, o genOpts) Config {
 	}
 	cfg.Codecs = append([]string(nil), rapid.SampledFrom(cl).Draw(t, "cfg_codecs")...)
 	cfg.Compressions = append([]string{}, rapid.SampledFrom(compressionLists).Draw(t, "cfg_compressions")...)
+	if rapid.IntRange(0, 5).Draw(t, "cfg_default_compression") == 0 {
+		cfg.Compressions, cfg.DefaultCompression = []string{CompGzip}, true
+	}
 	cfg.ViaDefaults = rapid.IntRange(0, 4).Draw(t, "cfg_via_defaults") == 0
 	cfg.GlobalTypes = rapid.IntRange(0, 3).Draw(t, "cfg_global_types") == 0
 	if rapid.IntRange(0, 3).Draw(t, "cfg_other_service") == 0 {
@@ -67,6 +70,10 @@ func genConfig(t *rapid.T, o genOpts) Config {
 		oo.NoCompress = rapid.IntRange(0, 3).Draw(t, "other_no_compress") == 0
 		oo.MaxMsg = uint32(rapid.SampledFrom([]int{0, 0, 64, 4096}).Draw(t, "other_max_msg"))
 		cfg.OtherOpts, cfg.OtherFirst = oo, rapid.Bool().Draw(t, "other_first")
+		if oo.NoCompress && rapid.Bool().Draw(t, "other_vs_default_compression") {
+			// the other service opts out of compression while this one relies on the library default
+			cfg.Compressions, cfg.DefaultCompression = []string{CompGzip}, true
+		}
 	}
 	return cfg
 }
@@ -353,6 +360,7 @@ func genClient(t *rapid.T, cfg *Config, o genOpts) Client {
 	c.GetBase64 = rapid.Bool().Draw(t, "get_b64")
 	c.GetPadded = rapid.Bool().Draw(t, "get_padded")
 	c.GetVersionHeader = rapid.IntRange(0, 2).Draw(t, "get_version_header") == 0
+	c.BareContentType = rapid.IntRange(0, 3).Draw(t, "bare_content_type") == 0
 	if o.segmentation {
 		c.ReadSplits = genSplits(t, "read_splits", 1)
 	}
